@@ -5,6 +5,7 @@
 import FileD.Lemmas.Core
 import FileD.Lemmas.StreamProc
 import FileD.Lemmas.Sys
+import FileD.Lemmas.Proc
 namespace FileD.PropsC02
 open FileD.Core
 
@@ -262,5 +263,115 @@ theorem commits_in_read_order_counterexample_dq : ¬ CommitsInReadOrder := by
     rw [hrun] at this; simpa using this
   have := h true dqWitness s hrun [] ⟨0, 3, 30⟩ [⟨0, 4, 40⟩] ⟨0, 1, 10⟩ [⟨0, 2, 20⟩] (by rw [hc]; rfl) rfl
   simp at this
+
+/-! ### the processor keeps the discipline M2 assumes (M3, Model/Proc.lean)
+
+M2 and the composed system let the processor do anything its guards allow: take the next event
+only when the one in hand is disposed of or held, re-inject only what is held, hand over only
+the oldest event it has. `processor_obeys_discipline` shows that the control flow of
+processor.go (dischargeStream / processEvent / doActions / Propagate / Spawn) with join-like and
+split-like actions never leaves those guards when at most one action of the chain can hold
+events and no plain action upstream of it breaks; with two holders it does
+(`processor_discipline_counterexample_two_holders`, the known finding of the nested Propagate). -/
+
+/-- every operation sequence the processor emits is accepted by the discipline automaton -/
+def ProcessorObeysDiscipline : Prop :=
+  ∀ (acts : List Proc.Act) (ins : List Proc.Item) (fuel : Nat), Proc.Above 0 ins →
+    ∃ d, Proc.drun {} (Proc.discharge fuel acts (Proc.PS.init ins)).1.toks = some d
+
+/-- **proved part**: chains with at most one holder at position `h` (`h = acts.length`: none),
+    no break upstream of it; every input sequence in read order with arbitrary time-outs and
+    re-attachments; every call depth (`fuel`), i.e. every prefix of the run. -/
+theorem processor_obeys_discipline_partial (acts : List Proc.Act) (h : Nat) (hch : Proc.Chain acts h)
+    (ins : List Proc.Item) (hok : Proc.ItemsOK acts h ins) (hs : Proc.Above 0 ins) (fuel : Nat) :
+    ∃ d, Proc.drun {} (Proc.discharge fuel acts (Proc.PS.init ins)).1.toks = some d := by
+  cases hd : Proc.discharge fuel acts (Proc.PS.init ins) with
+  | mk ps' r =>
+    obtain ⟨extra, d', ht, hdr⟩ := Proc.discharge_sim acts h hch fuel (Proc.PS.init ins) ps' r 0
+      ⟨rfl, rfl⟩ hs hok hd
+    refine ⟨d', ?_⟩
+    have : ps'.toks = extra := by simpa [Proc.PS.init] using ht
+    simpa [this] using hdr
+
+/-- the discipline automaton is exactly the processor side of M2: every M2 step is one of its steps … -/
+theorem m2_step_is_discipline_step {s s' : StreamProc.SS} {op : StreamProc.Op}
+    (h : StreamProc.step? s op = some s') : Proc.dstep? (Proc.proj s) op = some (Proc.proj s') :=
+  Proc.proj_step h
+
+/-- … and what the processor does with an event it has (hold, drop, propagate, out) is enabled in
+    M2 whenever the automaton enables it (these steps have no stream-side guard beyond `quiet`) -/
+theorem m2_enables_disposal {s : StreamProc.SS} {op : StreamProc.Op} {d' : Proc.DS}
+    (hq : StreamProc.quiet s = true)
+    (hop : (∃ q, op = .hold q) ∨ (∃ q, op = .drop q) ∨ (∃ q, op = .propagate q) ∨ (∃ q, op = .out q))
+    (h : Proc.dstep? (Proc.proj s) op = some d') :
+    ∃ s', StreamProc.step? s op = some s' ∧ Proc.proj s' = d' := by
+  rcases hop with ⟨q, rfl⟩ | ⟨q, rfl⟩ | ⟨q, rfl⟩ | ⟨q, rfl⟩
+  · simp only [Proc.dstep?] at h
+    by_cases hi : (Proc.proj s).inhand = some q
+    · rw [if_pos hi] at h; cases h
+      have hi' : s.inhand = some q := hi
+      exact ⟨{ s with inhand := none, held := s.held ++ [q] }, by simp [StreamProc.step?, hq, hi'], rfl⟩
+    · rw [if_neg hi] at h; cases h
+  · simp only [Proc.dstep?] at h
+    by_cases hi : (Proc.proj s).inhand = some q
+    · rw [if_pos hi] at h; cases h
+      have hi' : s.inhand = some q := hi
+      exact ⟨{ s with inhand := none, dropped := s.dropped ++ [q] }, by simp [StreamProc.step?, hq, hi'], rfl⟩
+    · rw [if_neg hi] at h
+      by_cases hp : q ∈ (Proc.proj s).propd
+      · rw [if_pos hp] at h; cases h
+        have hi' : ¬ s.inhand = some q := hi
+        have hp' : q ∈ s.propd := hp
+        exact ⟨{ s with propd := s.propd.erase q, dropped := s.dropped ++ [q] }, by simp [StreamProc.step?, hq, hi', hp'], rfl⟩
+      · rw [if_neg hp] at h; cases h
+  · simp only [Proc.dstep?] at h
+    by_cases hi : q ∈ (Proc.proj s).held
+    · rw [if_pos hi] at h; cases h
+      have hi' : q ∈ s.held := hi
+      exact ⟨{ s with held := s.held.erase q, propd := q :: s.propd }, by simp [StreamProc.step?, hq, hi'], rfl⟩
+    · rw [if_neg hi] at h; cases h
+  · simp only [Proc.dstep?] at h
+    by_cases hg : ∀ x ∈ (Proc.proj s).propd ++ (Proc.proj s).held ++ (Proc.proj s).inhand.toList, q ≤ x
+    · rw [if_pos hg] at h
+      by_cases hp : q ∈ (Proc.proj s).propd
+      · rw [if_pos hp] at h; cases h
+        have hg' : ∀ x ∈ s.propd ++ s.held ++ s.inhand.toList, q ≤ x := hg
+        have hp' : q ∈ s.propd := hp
+        exact ⟨{ s with propd := s.propd.erase q, outd := s.outd ++ [q] }, by simp only [StreamProc.step?, hq, true_and]; rw [if_pos hg', if_pos hp'], rfl⟩
+      · rw [if_neg hp] at h
+        by_cases hi : (Proc.proj s).inhand = some q
+        · rw [if_pos hi] at h; cases h
+          have hg' : ∀ x ∈ s.propd ++ s.held ++ s.inhand.toList, q ≤ x := hg
+          have hp' : ¬ q ∈ s.propd := hp
+          have hi' : s.inhand = some q := hi
+          exact ⟨{ s with inhand := none, outd := s.outd ++ [q] }, by simp only [StreamProc.step?, hq, true_and]; rw [if_pos hg', if_neg hp', if_pos hi'], rfl⟩
+        · rw [if_neg hi] at h; cases h
+    · rw [if_neg hg] at h; cases h
+
+/-- non-vacuity: a chain [plain, join, split] meets the hypotheses and its run holds, collapses,
+    flushes on a time-out and spawns -/
+example : Proc.Chain [.plain 0, .holder 0, .spawner] 1 :=
+  ⟨Or.inl ⟨0, rfl⟩, by
+    intro j g hj
+    rcases j with _ | _ | _ | j <;> simp at hj ⊢⟩
+
+example : (Proc.discharge 40 [.plain 0, .holder 0, .spawner] (Proc.PS.init
+      [.ev { seq := 1, js := [.start] }, .ev { seq := 2, js := [.cont] }, .tmo,
+       .ev { seq := 3, js := [.other], kids := 2 }, .gap])).1.toks =
+    [.get 1, .hold 1, .get 2, .drop 2, .getTimeout, .propagate 1, .out 1, .get 3, .out 3, .leave] := by decide +kernel
+
+/-- two joins in one chain (the nested-Propagate known finding): the second join holds the event
+    the first one re-injects, the nested frame takes event 5 while 4 is still in hand -/
+def twoHolders : List Proc.Act := [.holder 0, .holder 1]
+def twoHoldersIns : List Proc.Item :=
+  [.ev { seq := 1, js := [.other, .start] }, .ev { seq := 2, js := [.start, .cont] }, .ev { seq := 3, js := [.cont, .cont] },
+   .ev { seq := 4, js := [.other, .other] }, .ev { seq := 5, js := [.other, .other] }]
+
+theorem processor_discipline_counterexample_two_holders : ¬ ProcessorObeysDiscipline := by
+  intro h
+  have hab : Proc.Above 0 twoHoldersIns := by simp [Proc.Above, twoHoldersIns]
+  obtain ⟨d, hd⟩ := h twoHolders twoHoldersIns 40 hab
+  have : Proc.drun {} (Proc.discharge 40 twoHolders (Proc.PS.init twoHoldersIns)).1.toks = none := by decide +kernel
+  rw [this] at hd; cases hd
 
 end FileD.PropsC02
